@@ -225,8 +225,9 @@ def _run(ctx, base):
             version = r.choice([None, 7.6, 8.0, 8.2])
             files = []
             targets = r.choice([[0], [0, 0], [1], [2], [0, 1], [254], [255], [256], [257], [300], [1, "bad"], ["bad"], [0, "bad"], [3, 0, "bad", 2]])
-            if ctx.quick and j < len([[254], [255], [256], [257], ["bad"], [0, "bad"]]) and ctx.shard < 6:
-                targets = [[254], [255], [256], [257], ["bad"], [0, "bad"]][ctx.shard] if j == 0 else targets
+            forced = [[254], [255], [256], [257], ["bad"], [0, "bad"], [300], [1, "bad"]]
+            if res.counters["cli:validate"] == 1 and ctx.shard < len(forced):
+                targets = forced[ctx.shard]  # boundary cases are always present, one per shard
             for k2, t in enumerate(targets):
                 fn = os.path.join(wd, f"v{j}_{k2}.map")
                 if t == "bad":
